@@ -137,7 +137,59 @@ func AsMemdbOp(instr ssa.Instruction) *MemdbOp {
 		}
 	}
 	op.Args = rest
+	if len(rest) == 1 && nstr == 2 {
+		if un := UnpackVariadic(rest[0]); un != nil {
+			op.Args = un
+		} else if IsNilConst(rest[0]) {
+			op.Args = nil
+		}
+	}
 	return op
+}
+
+// UnpackVariadic recovers the elements of a variadic argument built at the
+// call site (`f(a, b)` lowers to a slice of a fresh array with stores).
+func UnpackVariadic(v ssa.Value) []ssa.Value {
+	sl, ok := v.(*ssa.Slice)
+	if !ok {
+		return nil
+	}
+	alloc, ok := sl.X.(*ssa.Alloc)
+	if !ok || alloc.Referrers() == nil {
+		return nil
+	}
+	elems := map[int64]ssa.Value{}
+	var max int64 = -1
+	for _, r := range *alloc.Referrers() {
+		ia, ok := r.(*ssa.IndexAddr)
+		if !ok || ia.Referrers() == nil {
+			continue
+		}
+		i, ok := ConstInt(ia.Index)
+		if !ok {
+			return nil
+		}
+		for _, rr := range *ia.Referrers() {
+			if st, ok := rr.(*ssa.Store); ok && st.Addr == ia {
+				elems[i] = st.Val
+				if i > max {
+					max = i
+				}
+			}
+		}
+	}
+	out := make([]ssa.Value, 0, max+1)
+	for i := int64(0); i <= max; i++ {
+		e, ok := elems[i]
+		if !ok {
+			return nil
+		}
+		if mi, ok := e.(*ssa.MakeInterface); ok {
+			e = mi.X
+		}
+		out = append(out, e)
+	}
+	return out
 }
 
 // ConstString returns the compile-time string value of v.
